@@ -67,10 +67,10 @@ func (v V) clone() V {
 	return v
 }
 
-func atom(id int) V   { return V{K: vInt, IsAtom: true, A: id} }
-func conc(n int64) V  { return V{K: vInt, N: n} }
+func atom(id int) V    { return V{K: vInt, IsAtom: true, A: id} }
+func conc(n int64) V   { return V{K: vInt, N: n} }
 func boolean(b bool) V { return V{K: vBool, B: b} }
-func segOf(a, b V) V  { return V{K: vArr, Arr: []V{a, b}, T: "Segment"} }
+func segOf(a, b V) V   { return V{K: vArr, Arr: []V{a, b}, T: "Segment"} }
 func sliceOf(t string, elems ...V) V {
 	b := make([]V, len(elems))
 	copy(b, elems)
